@@ -547,6 +547,17 @@ fn seed_of(id: &str) -> u64 {
     id.bytes().fold(0xcbf29ce484222325u64, |h, b| (h ^ b as u64).wrapping_mul(0x100000001b3))
 }
 
+/// every instance spells each logical property at most once (no canonical + alias, no two aliases, no legacy + new)
+pub fn one_spelling(f: &Forest) -> bool {
+    f.nodes.iter().all(|n| {
+        let mut seen = BTreeSet::new();
+        n.props.iter().all(|(p, _)| match logical(&n.class, p) {
+            Logical::Prop { canon, .. } => seen.insert(canon),
+            Logical::Skip => false,
+        })
+    })
+}
+
 pub fn c07(id: &str, f: &Forest, r: &[(CompressionType, Enc)], out: &mut Vec<String>) {
     let mut rng = Rng::new(seed_of(id));
     // (a) the same logical DOM with fresh Refs and another property insertion order
@@ -558,13 +569,7 @@ pub fn c07(id: &str, f: &Forest, r: &[(CompressionType, Enc)], out: &mut Vec<Str
         for (c, e) in r {
             let e2 = encode(&dom2, &roots2, *c);
             if !same_outcome(e, &e2) {
-                let one_spelling = f.nodes.iter().all(|n| {
-                    let mut seen = BTreeSet::new();
-                    n.props.iter().all(|(p, _)| match logical(&n.class, p) {
-                        Logical::Prop { canon, .. } => seen.insert(canon),
-                        Logical::Skip => false,
-                    })
-                });
+                let one_spelling = one_spelling(f);
                 let key = if one_spelling { "rebuild-differs" } else { "rebuild-differs-two-spellings" };
                 out.push(format!("{id} C07 {key} comp={c:?} round={round}: original {} vs rebuilt (fresh Refs, shuffled properties) {}", describe(e), describe(&e2)));
                 return;
@@ -722,5 +727,181 @@ pub fn c08(id: &str, f: &Forest, out: &mut Vec<String>) {
     } else if !all_alone && !oks.is_empty() {
         let k = alone.iter().position(|e| !matches!(e, Enc::Bytes(_))).unwrap();
         out.push(format!("{id} C08 {key}-succeeds-together instance {} alone gives {}, yet the set serializes", f.nodes[k].label, describe(&alone[k])));
+    }
+}
+
+// ------------------------------------------------------------------------------------------ C15 (binary paths)
+
+/// C15 on the two binary paths, for cases generated with `--migrating` (same-class sets around one Migrate pair):
+///   write path: DOM -> to_writer -> from_reader (the serializer migrates);
+///   read path:  the same DOM serialized with an EMPTY database (so the PROP chunk carries the legacy name and
+///               type) -> from_reader with the bundled database (the reader migrates).
+/// Expected after either path, per instance: the legacy name is gone (`legacy-survives`); legacy only -> the new
+/// property holds migration.perform(legacy) (`value` / `missing`; `unmigratable` when perform fails or the write
+/// fails because of it); both -> the explicitly set new value wins (`explicit-loses`); new only -> unchanged.
+pub fn c15(id: &str, f: &Forest, r: &[(CompressionType, Enc)], out: &mut Vec<String>) {
+    if f.opt("migrating").is_none() || f.nodes.is_empty() {
+        return;
+    }
+    let db = rbx_reflection_database::get();
+    let class = f.nodes[0].class.clone();
+    // the Migrate descriptors visible on the class
+    let mut pairs: Vec<(String, String, &rbx_reflection::PropertyMigration)> = Vec::new();
+    {
+        let mut cur = db.classes.get(class.as_str());
+        let mut guard = 0;
+        while let Some(c) = cur {
+            for (n, p) in c.properties.iter() {
+                if let PropertyKind::Canonical { serialization: PropertySerialization::Migrate(m) } = &p.kind {
+                    pairs.push((n.to_string(), m.new_property_name.clone(), m));
+                }
+            }
+            guard += 1;
+            if guard > 64 {
+                break;
+            }
+            cur = c.superclass.as_ref().and_then(|s| db.classes.get(s.as_ref()));
+        }
+    }
+    pairs.sort_by(|a, b| a.0.cmp(&b.0));
+    // C15 compares modulo the value normalisations that C01 records separately (Font cached_face_id Some("") = None,
+    // an EnumItem is written as its Enum value)
+    let show = |v: &Variant| -> String {
+        let v = match v {
+            Variant::Font(f) if f.cached_face_id.as_deref() == Some("") => Variant::Font(Font { cached_face_id: None, ..f.clone() }),
+            Variant::EnumItem(e) => Variant::Enum(Enum::from_u32(e.value)),
+            other => other.clone(),
+        };
+        cut(&forest::value_with_labels(&map_refs(&v, &mut |_| Ref::none())))
+    };
+    let check = |path: &str, f: &Forest, e: &Enc, out: &mut Vec<String>| {
+        let quantise = path == "write";
+        let unmigratable: Vec<String> = f
+            .nodes
+            .iter()
+            .flat_map(|n| {
+                pairs.iter().filter_map(move |(l, _, m)| {
+                    n.props.iter().find(|(k, _)| k == l).and_then(|(_, v)| if m.perform(v).is_err() { Some(format!("{}.{l} = {}", n.class, cut(&forest::value_with_labels(v)))) } else { None })
+                })
+            })
+            .collect();
+        let bytes = match e {
+            Enc::Bytes(b) => b,
+            other => {
+                if !unmigratable.is_empty() {
+                    out.push(format!("{id} C15 unmigratable path={path} {} has no migration and writing gives {}", unmigratable[0], describe(other)));
+                } else {
+                    out.push(format!("{id} C15 value path={path} writing fails: {}", describe(other)));
+                }
+                return;
+            }
+        };
+        let dom = match decode(bytes) {
+            Dec::Dom(d) => d,
+            Dec::Err(k, m) => {
+                let key = if unmigratable.is_empty() { "value" } else { "unmigratable" };
+                out.push(format!("{id} C15 {key} path={path} reading fails: {k} {}", cut(&m)));
+                return;
+            }
+            Dec::Panic(m) => {
+                out.push(format!("{id} C15 value path={path} reading panics: {}", cut(&m)));
+                return;
+            }
+        };
+        let order = f.preorder(&f.roots);
+        let kids = dom.root().children();
+        if kids.len() != order.len() {
+            out.push(format!("{id} C15 value path={path} {} instances written, {} read", order.len(), kids.len()));
+            return;
+        }
+        let mut seen = HashSet::new();
+        for (k, l) in order.iter().enumerate() {
+            let n = f.node(*l).unwrap();
+            let y = dom.get_by_ref(kids[k]).unwrap();
+            for (legacy, new_name, m) in &pairs {
+                let lv = n.props.iter().find(|(k, _)| k == legacy).map(|(_, v)| v);
+                let canon_new = match logical(&n.class, new_name) {
+                    Logical::Prop { readback, .. } => readback,
+                    Logical::Skip => new_name.clone(),
+                };
+                let (known, ser_ty) = match logical(&n.class, new_name) {
+                    Logical::Prop { known, ser_ty, .. } => (known && quantise, ser_ty),
+                    Logical::Skip => (quantise, None),
+                };
+                let nv = n.props.iter().find(|(k, _)| k == new_name).map(|(_, v)| v);
+                let dv = y.properties.get(&canon_new.as_str().into());
+                let mut emit = |key: &str, text: String, out: &mut Vec<String>| {
+                    if seen.insert(key.to_string()) {
+                        out.push(format!("{id} C15 {key} path={path} node {l} {}: {text}", n.class));
+                    }
+                };
+                if lv.is_some() && y.properties.get(&legacy.as_str().into()).is_some() {
+                    emit("legacy-survives", format!("legacy property {legacy} is still present after the round trip"), out);
+                }
+                match (lv, nv) {
+                    (Some(l0), None) => match m.perform(l0) {
+                        Ok(ev) => {
+                            let ev = norm_value(&ev, known, ser_ty);
+                            match dv {
+                                None => emit("missing", format!("{legacy} = {} should migrate to {new_name} = {}, which is absent", show(l0), show(&ev)), out),
+                                Some(d) => {
+                                    if show(d) != show(&ev) {
+                                        emit("value", format!("{legacy} = {} should migrate to {new_name} = {}, got {}", show(l0), show(&ev), show(d)), out)
+                                    }
+                                }
+                            }
+                        }
+                        Err(_) => emit("unmigratable", format!("{legacy} = {} has no migration to {new_name}; read back {new_name} = {}", show(l0), dv.map(|d| show(d)).unwrap_or_else(|| "absent".into())), out),
+                    },
+                    (Some(l0), Some(n0)) => {
+                        let ev = norm_value(n0, known, ser_ty);
+                        match dv {
+                            Some(d) if show(d) == show(&ev) => {}
+                            other => emit("explicit-loses", format!("explicit {new_name} = {} next to legacy {legacy} = {}: read back {}", show(&ev), show(l0), other.map(|d| show(d)).unwrap_or_else(|| "absent".into())), out),
+                        }
+                    }
+                    (None, Some(n0)) => {
+                        let ev = norm_value(n0, known, ser_ty);
+                        match dv {
+                            None => emit("missing", format!("{new_name} = {} is absent after the round trip", show(&ev)), out),
+                            Some(d) => {
+                                if show(d) != show(&ev) {
+                                    emit("value", format!("{new_name} = {} read back as {}", show(&ev), show(d)), out)
+                                }
+                            }
+                        }
+                    }
+                    (None, None) => {}
+                }
+            }
+        }
+    };
+    // write path
+    if let Some((_, e)) = r.iter().find(|(c, _)| *c == CompressionType::None) {
+        check("write", f, e, out);
+    }
+    // read path: the legacy names reach the file because the writing database knows nothing; one file per
+    // instance, so that no column default stands in for a property the instance does not carry
+    let empty = rbx_reflection::ReflectionDatabase::new();
+    for n in &f.nodes {
+        let mut g = Forest::default();
+        g.nodes.push(n.clone());
+        g.roots = vec![n.label];
+        let mut ctx = RefCtx::new();
+        let dom = forest::build_dom(&g, &mut ctx);
+        let roots: Vec<Ref> = vec![ctx.ref_of(n.label)];
+        let e = match crate::binfile::guarded(|| {
+            let mut buf = Vec::new();
+            rbx_binary::Serializer::new().reflection_database(&empty).compression_type(CompressionType::None).serialize(&mut buf, &dom, &roots).map(|_| buf)
+        }) {
+            Ok(Ok(b)) => Enc::Bytes(b),
+            Ok(Err(e)) => Enc::Err("io".into(), e.to_string()),
+            Err(p) => Enc::Panic(p),
+        };
+        let before = out.len();
+        check("read", &g, &e, out);
+        if out.len() > before {
+            break;
+        }
     }
 }
